@@ -1759,3 +1759,111 @@ func c14r11(c *Ctx, r *Report) {
 	r.check(recorded, relName(rst)+":records the running command's files", rst.Pos(), rst, "Reader.restart stores commandSpec.tempFiles in the Reader", "the Reader does not know the temporary files of the command it runs: nothing can remove them when fzf exits during the reload")
 	r.check(removed, relName(term)+":removes the running command's files", term.Pos(), term, "Reader.terminate removes them", "fzf exits while the reload command runs and the process ends before Reader.restart gets to removeFiles")
 }
+
+// c20r13: cancelPreview hands its request over with a NON-blocking send on Terminal.killChan, so the request
+// is lost whenever no watcher goroutine is parked on the channel — in particular while the previewer is still
+// building and starting the command the request is meant for. The request that caused the cancellation is
+// still in the previewer's mailbox at that time, so the watcher can and must compensate: before it first
+// blocks on killChan it looks into Terminal.previewBox for a pending request (D37: it did not; a cursor move
+// during the start of a never-ending preview command left that command running and the preview of the focused
+// line never started).
+func c20r13(c *Ctx, r *Report) {
+	l := c.L
+	r.rule("C20-R13", "A (compensation dominates the lossy receive)", "P1",
+		"if some send on Terminal.killChan is non-blocking (a select with default), then in every goroutine that receives from Terminal.killChan a call of EventBox.Peek on Terminal.previewBox dominates the first select that receives from it",
+		"a superseded preview command keeps running and the preview for the line under the cursor does not start until the next user action")
+	fKill := l.Field("fzf", "Terminal", "killChan")
+	fBox := l.Field("fzf", "Terminal", "previewBox")
+	peek := l.Fn("util", "(*EventBox).Peek")
+	if fKill == nil || fBox == nil || peek == nil {
+		r.unest("anchors", token.NoPos, nil, "anchors Terminal.killChan / Terminal.previewBox / EventBox.Peek", "cannot resolve")
+		return
+	}
+	isKill := func(v ssa.Value) bool {
+		fld, _ := loadedField(v)
+		return fld == fKill
+	}
+	lossy := false
+	nLossy := 0
+	type recvSite struct {
+		fn  *ssa.Function
+		sel *ssa.Select
+	}
+	var recvs []recvSite
+	for _, fn := range l.AllFuncs() {
+		if fn.Blocks == nil || fn.Pkg != l.pkg("fzf") {
+			continue
+		}
+		eachInstr(fn, func(in ssa.Instruction) {
+			sel, ok := in.(*ssa.Select)
+			if !ok {
+				return
+			}
+			for _, st := range sel.States {
+				if !isKill(st.Chan) {
+					continue
+				}
+				if st.Dir == types.SendOnly {
+					if !sel.Blocking {
+						lossy = true
+						nLossy++
+					}
+				} else {
+					recvs = append(recvs, recvSite{fn, sel})
+				}
+			}
+		})
+	}
+	r.info("lossy sends", token.NoPos, nil, fmt.Sprintf("%d non-blocking send(s) on Terminal.killChan", nLossy))
+	if !lossy {
+		r.ok("Terminal.killChan:no lossy send", token.NoPos, nil, "every send on Terminal.killChan blocks until it is received")
+		return
+	}
+	// per receiving function: the first (dominating) receive select
+	byFn := map[*ssa.Function][]*ssa.Select{}
+	for _, rs := range recvs {
+		byFn[rs.fn] = append(byFn[rs.fn], rs.sel)
+	}
+	var fns []*ssa.Function
+	for f := range byFn {
+		fns = append(fns, f)
+	}
+	sort.Slice(fns, func(i, j int) bool { return relName(fns[i]) < relName(fns[j]) })
+	for _, f := range fns {
+		var peeks []ssa.Instruction
+		eachInstr(f, func(in ssa.Instruction) {
+			if call, ok := in.(*ssa.Call); ok && callIs(call.Common(), peek) {
+				if fld, _ := loadedField(call.Call.Args[0]); fld == fBox {
+					peeks = append(peeks, in)
+				}
+			}
+		})
+		ok := true
+		var at token.Pos
+		for _, sel := range byFn[f] {
+			// only selects not dominated by another receive select of the same function (the first ones)
+			first := true
+			for _, other := range byFn[f] {
+				if other != sel && dominates(other, sel) {
+					first = false
+				}
+			}
+			if !first {
+				continue
+			}
+			dom := false
+			for _, p := range peeks {
+				if dominates(p, sel) {
+					dom = true
+				}
+			}
+			if !dom {
+				ok = false
+				at = sel.Pos()
+			}
+		}
+		r.check(ok, fmt.Sprintf("%s:pending request consulted before the first receive from killChan", relName(f)), f.Pos(), f,
+			"a Peek on Terminal.previewBox dominates the first receive", fmt.Sprintf("the select at %s is the first to receive from killChan and nothing looked for a request that arrived before: its cancellation was sent when nobody listened", l.pos(at)))
+	}
+	r.floor("goroutines receiving from Terminal.killChan", len(fns), 1)
+}
